@@ -88,6 +88,9 @@ func (e *Engine) VerifyUnit(c *Contract) (r *FnRun) {
 		if immutableCapture(fn, i) {
 			// never reassigned after the closure was created: no call can change it
 			r.constCells[fr.termOf(fr.env[fv]).S] = v
+		} else if containsStr(c.ConstCaptures, fv.Name()) {
+			r.constCells[fr.termOf(fr.env[fv]).S] = v
+			r.Trusted["captured variable "+fv.Name()+" of "+c.Name+" is not assigned while the function runs (declared constant)"] = true
 		}
 	}
 	fr.entry = st.Clone()
@@ -505,7 +508,7 @@ func (r *FnRun) frameInfo(fr *Frame) (allowed map[string]*frameAllow, allowAll b
 	fr.st, fr.cur = saved, savedCur
 	if c.HavocExt {
 		for _, n := range r.Heap.Names() {
-			if strings.HasPrefix(n, "F.") && !fr.moduleComp(n) {
+			if !fr.moduleOwnedComp(n) {
 				add(n, Term{}, true)
 			}
 		}
@@ -565,6 +568,9 @@ func (r *FnRun) checkFrame(fr *Frame, out *State, retGuard Term) {
 	for _, name := range sortedKeys(out.heap) {
 		if r.lockTouched[name] {
 			continue // protected by a monitored mutex this unit took: the environment may change it
+		}
+		if c.HavocExt && !fr.moduleOwnedComp(name) {
+			continue // 'modifies extern': everything that is not data of module-declared types
 		}
 		f, ok := r.frameFormula(fr, name, out.heap[name])
 		if !ok || f.S == "true" {
